@@ -23,9 +23,10 @@ CLASSES = [
 LOGIC = Logic(globals={"g_arch_index_path": "Val[Path]", "g_arch_out_path": "Val[Path]", "g_arch_paths_known": "bool"})
 
 CONTRACTS = [
-    Contract("ext::Path.unlink(archive)", varargs=True,
+    Contract("ext::Path.unlink(archive)", varargs=True, modifies=["g_entries"],
              requires=[C("only_the_temporary_index_and_the_new_archive_are_ever_removed",
                          "g_arch_paths_known and (self == g_arch_index_path or self == g_arch_out_path)", "C11")],
+             ensures=["not (self in g_entries)", "forall(p, 'Val[Path]', implies(p != self, (p in g_entries) == old(p in g_entries)))"],
              trusted_reason="pathlib unlink(missing_ok=True) removes that one file if present"),
     Contract("ext::handle_output_path", params={"ctx": "Context", "raw_output_path": "Opt[str]"}, returns="Val[Path]",
              raises={"ConductorError+": []}, trusted_reason="cli/archive.py::handle_output_path: an archive file name that does not exist yet, or OutputFileExists / OutputPathDoesNotExist"),
@@ -40,7 +41,10 @@ CONTRACTS = [
              raises={"Exception+": []},
              trusted_reason="A-SQL: SELECTs on the source connection (no transaction is opened by a SELECT), INSERTs into dest (VersionIndex.bulk_load, verified in contracts/version_index_tx.py)"),
     Contract("ext::VersionIndex.create_or_load(archive)", params={"path": "Val[Path]"}, returns="VersionIndex", fresh_result=True,
-             ensures=["fresh(result._conn)", "allocated(result._conn)"], raises={"Exception+": []},
+             # a left-over index of a killed `cond archive` would be LOADED (create_or_load) and its rows would end up in this archive
+             requires=[C("the_archive_index_starts_from_scratch", "not (path in g_entries)", "C11")],
+             modifies=["g_entries"],
+             ensures=["fresh(result._conn)", "allocated(result._conn)", "forall(p, 'Val[Path]', implies(p != path, (p in g_entries) == old(p in g_entries)))"], raises={"Exception+": []},
              trusted_reason="A-SQL: a new connection to a (new) database file"),
     Contract("ext::Path.relative_to(archive)", params={"other": "Val[Path]"}, returns="Val[Path]", raises={"ValueError": []}, trusted_reason="pathlib"),
 
@@ -50,7 +54,7 @@ CONTRACTS = [
                          "VersionIndex.create_or_load": "VersionIndex.create_or_load(archive)", "Path.relative_to": "Path.relative_to(archive)"},
              locals={"tasks_to_archive": "Opt[List[TaskIdentifier]#toarch]"},
              requires=[C("paths_not_chosen_yet", "not g_arch_paths_known")],
-             modifies=["g_arch_index_path", "g_arch_out_path", "g_arch_paths_known", "$alloc", "SqliteConnection.in_transaction", "SqliteConnection.g_commits",
+             modifies=["g_arch_index_path", "g_arch_out_path", "g_arch_paths_known", "g_entries", "$alloc", "SqliteConnection.in_transaction", "SqliteConnection.g_commits",
                        "ConductorError.extra_context_set", "ConductorError.file_context_set"],
              ensures=[C("project_index_only_read", "forall(v, 'VersionIndex', implies(allocated(v) and old(allocated(v._conn)), v._conn.g_commits == old(v._conn.g_commits)"
                                                    " and v._conn.in_transaction == old(v._conn.in_transaction)))", "C11")],
